@@ -65,7 +65,7 @@ func CompileEx(expr string, ignoreCase bool) (*Dissect, error) {
 		expr = expr[stop+1:]
 
 		// end is the next token OR end of expr
-		end := strings.Index(expr, "%")
+		end := strings.Index(expr, "%{")
 		if end < 0 {
 			end = len(expr)
 		} else if end == 0 {
